@@ -18,8 +18,17 @@ KIND_ERRORS = {
     'sq_mix': 'per-component squares are combined with squared lengths (a sum over the xyz axis is missing)',
     'wrapped_reduce': 'wrapped positions are averaged/summed: the result jumps when atoms cross a cell face (depends on the origin)',
     'unreduced_diff': 'a difference of wrapped positions is converted to Cartesian without minimum-image reduction',
-    'cartsq_mean_xyz': 'squared components are averaged (not summed) over xyz',
 }
+
+# errors that apply where an exact periodic distance between arbitrary points is required (not for short bonds / small radii)
+STRICT_ERRORS = {
+    'cw_to_cart': 'a hand-rolled minimum image (fractional difference rounded component by component) is converted to Cartesian and '
+                  'used as a periodic distance: in a skewed cell the componentwise-nearest image is not the nearest image',
+}
+KIND_ERRORS.update({
+    'cartsq_mean_xyz': 'squared components are averaged (not summed) over xyz',
+})
+ALL_ERRORS = {**KIND_ERRORS, **STRICT_ERRORS}
 
 
 def uniq_events(it, tags, fn_filter=None):
@@ -38,11 +47,12 @@ def uniq_events(it, tags, fn_filter=None):
     return out
 
 
-def kind_errors(ctx, rule, it, fn_filter, tags=None):
+def kind_errors(ctx, rule, it, fn_filter, tags=None, strict=False):
     """One violated obligation per definite kind error raised inside the selected functions."""
     n = 0
-    for e in uniq_events(it, tags or set(KIND_ERRORS), fn_filter):
-        what = KIND_ERRORS[e['tag']]
+    table = ALL_ERRORS if strict else KIND_ERRORS
+    for e in uniq_events(it, tags or set(table), fn_filter):
+        what = table[e['tag']]
         extra = e.get('what')
         ctx.ob(rule, e['where'], e['node'], False, f'{what}{": " + extra if extra else ""}')
         n += 1
@@ -54,7 +64,7 @@ def geo_text(g):
         return 'unknown kind'
     return {
         'FRAC': lambda: f'fractional position ({ {"W": "wrapped to [0,1)", "C": "wrapped to the closed interval [0,1]", "N": "not wrapped"}.get(g[1], g[1]) })',
-        'FDIFF': lambda: f'fractional difference ({ {"MI": "minimum image", "W2": "difference of two wrapped positions", "W1": "one-sided image correction", "CUM": "unwrapped running sum", "ANY": "not reduced"}.get(g[1], g[1]) })',
+        'FDIFF': lambda: f'fractional difference ({ {"MI": "minimum image", "CW": "componentwise reduced", "W2": "difference of two wrapped positions", "W1": "one-sided image correction", "CUM": "unwrapped running sum", "ANY": "not reduced"}.get(g[1], g[1]) })',
         'CART': lambda: f'Cartesian {g[2]} in the {"lattice" if g[1] == "LAT" else g[1]} frame',
         'CARTSQ': lambda: 'squared Cartesian components',
         'DIST': lambda: 'length', 'DIST2': lambda: 'squared length',
